@@ -196,7 +196,11 @@ func OracleC05(ex *Exec) *Obs {
 		got := ex.Res.Etxs
 		if ex.Res.Err != nil {
 			if len(got) != 0 {
-				o.bad("failed-tx-emits-etx", "top-level failure (%v) but %d ETXs returned", ex.Res.Err, len(got))
+				why := ""
+				if ex.Res.Err == vm.ErrCodeStoreOutOfGas {
+					why = ":creation-code-store-out-of-gas" // the creation frame was never reverted
+				}
+				o.bad("failed-tx-emits-etx"+why, "top-level failure (%v) but %d ETXs returned", ex.Res.Err, len(got))
 			}
 			o.class("outbound-set:failed-tx")
 		} else if !topExt {
@@ -328,6 +332,12 @@ func OracleC02(ex *Exec) *Obs {
 		o.bad("gas-used-above-limit", "used %d limit %d", ex.Res.UsedGas, ex.Case.Gas)
 	}
 	failed := ex.Res.Err != nil
+	// the failure reason is part of the signature: a failed creation whose frame was never
+	// reverted (code deposit out of gas) is one specific call site
+	why := ""
+	if failed && ex.Res.Err == vm.ErrCodeStoreOutOfGas {
+		why = ":creation-code-store-out-of-gas"
+	}
 	// protocol-defined debits and credits, from the tracer's view of successful non-reverted operations
 	debits, refunds := new(big.Int), new(big.Int)
 	wrapCarried, wrapDebits := new(big.Int), new(big.Int)
@@ -418,9 +428,9 @@ func OracleC02(ex *Exec) *Obs {
 		}
 	}
 	if sumA.Cmp(expected) > 0 {
-		o.bad("value-created", "sum of balances after %s > before %s - gas %s - etx debits %s + rent refunds %s (excess %s)", sumA, sumB, gasCost, debits, refunds, new(big.Int).Sub(sumA, expected))
+		o.bad("value-created"+why, "sum of balances after %s > before %s - gas %s - etx debits %s + rent refunds %s (excess %s)", sumA, sumB, gasCost, debits, refunds, new(big.Int).Sub(sumA, expected))
 	} else if exact && sumA.Cmp(expected) != 0 {
-		o.bad("value-destroyed", "sum of balances after %s != before %s - gas %s - etx debits %s + rent refunds %s (missing %s)", sumA, sumB, gasCost, debits, refunds, new(big.Int).Sub(expected, sumA))
+		o.bad("value-destroyed"+why, "sum of balances after %s != before %s - gas %s - etx debits %s + rent refunds %s (missing %s)", sumA, sumB, gasCost, debits, refunds, new(big.Int).Sub(expected, sumA))
 	}
 	for a, v := range ex.After {
 		if v.Sign() < 0 {
@@ -445,12 +455,14 @@ func OracleC02(ex *Exec) *Obs {
 		sent = ex.Case.value
 	}
 	charge := new(big.Int).Sub(payerDelta, sent)
+	// the failure reason is part of the signature: a failed creation whose frame was never
+	// reverted (code deposit out of gas) is one specific call site
 	if charge.Cmp(gasCost) != 0 {
-		o.bad("payer-charge-differs", "payer lost %s beyond the value sent; gasUsed*price = %s", charge, gasCost)
+		o.bad("payer-charge-differs"+why, "payer lost %s beyond the value sent; gasUsed*price = %s", charge, gasCost)
 	}
 	limitCost := new(big.Int).Mul(new(big.Int).SetUint64(ex.Case.Gas), price)
 	if charge.Cmp(limitCost) > 0 {
-		o.bad("payer-charge-above-limit", "charge %s > gasLimit*price %s", charge, limitCost)
+		o.bad("payer-charge-above-limit"+why, "charge %s > gasLimit*price %s", charge, limitCost)
 	}
 	if failed {
 		for a, v := range ex.After {
@@ -458,7 +470,7 @@ func OracleC02(ex *Exec) *Obs {
 				continue
 			}
 			if v.Cmp(ex.Before[a]) != 0 {
-				o.bad("failed-tx-changed-balance", "transaction failed (%v) but %x went from %s to %s", ex.Res.Err, a[:], ex.Before[a], v)
+				o.bad("failed-tx-changed-balance"+why, "transaction failed (%v) but %x went from %s to %s", ex.Res.Err, a[:], ex.Before[a], v)
 			}
 		}
 	}
@@ -484,7 +496,20 @@ func OracleC12(ex *Exec) *Obs {
 		if mm.TopLevel {
 			where = "failed-transaction"
 		}
+		if strings.HasPrefix(mm.Phase, "no-revert:") {
+			// a frame that reported failure was never reverted at all
+			for _, d := range mm.Diff {
+				if contains(d, ":exist:") {
+					kind = "created-account-kept" // whatever else the frame did is kept with it
+				}
+			}
+			o.bad("failed-frame-not-reverted:"+where+":"+strings.TrimPrefix(mm.Phase, "no-revert:")+":"+kind, "snapshot %d: %v", mm.SnapID, mm.Diff)
+			continue
+		}
 		o.bad("revert-leaves-trace:"+where+":"+kind, "snapshot %d: %v", mm.SnapID, mm.Diff)
+	}
+	if ex.P.FailedNoRevert > 0 {
+		o.class("failed-frame-without-revert:" + reg)
 	}
 	if ex.P.Reverts > 0 {
 		kinds := map[string]bool{}
